@@ -331,6 +331,22 @@ func c16Gate(c *Ctx) {
 			r, found := policy(cs.pol, cs.hasCerts)
 			c.Check(!r && found, rule, fname(f), cs.what, "", fmt.Sprintf("assuming ClientAuth == %s and a session %s client certificates, checkForResumption can still return true (test on the session's certificates found: %v)", cs.pol, map[bool]string{true: "with", false: "without"}[cs.hasCerts], found), f.Pos())
 		}
+		// and the converse, as far as a may-analysis can state it: where policy and session agree, a true result must
+		// not have become unreachable (the ClientAuthType constants are not ordered by strictness — an ordering test
+		// such as `ClientAuth < RequireAnyClientCert` silently stops resuming certificate-less sessions under
+		// VerifyClientCertIfGiven). Unreachable in the abstraction means unreachable in every execution.
+		for _, cs := range []struct {
+			pol      string
+			hasCerts bool
+		}{
+			{"NoClientCert", false}, {"RequestClientCert", false}, {"VerifyClientCertIfGiven", false},
+			{"RequestClientCert", true}, {"VerifyClientCertIfGiven", true}, {"RequireAnyClientCert", true}, {"RequireAndVerifyClientCert", true},
+		} {
+			c.Evals++
+			r, _ := policy(cs.pol, cs.hasCerts)
+			with := map[bool]string{true: "with", false: "without"}[cs.hasCerts]
+			c.Check(r, rule, fname(f), "a session "+with+" client certificates can be resumed under "+cs.pol, "", fmt.Sprintf("assuming ClientAuth == %s and a session %s client certificates, no path of checkForResumption returns true any more: valid tickets of such sessions are never resumed although the policy allows it", cs.pol, with), f.Pos())
+		}
 	}
 	// resumption is entered only on the gate's true result
 	for _, name := range []string{"(*serverHandshakeStateGM).readClientHello", "(*serverHandshakeState).readClientHello"} {
